@@ -283,6 +283,10 @@ def run_merge(c):
     meshes = []
     for m in c["meshes"]:
         coords = np.asarray(m["coords"], dtype=float) / 8.0 * float(c.get("coord_scale", 1.0))
+        pert = c.get("perturb")
+        if pert and len(meshes) == pert["mesh"]:
+            # seam nodes of this mesh moved by an ABSOLUTE distance delta (documented tolerance: 1e-12 absolute)
+            coords[np.asarray(pert["nodes"], dtype=int), 0] += float(pert["delta"])
         d = {}
         for name, conn in m["groups"].items():
             et = getattr(ElemType, name)
@@ -298,6 +302,26 @@ def run_merge(c):
            "mapping": [ilist(mp) for mp in mapping],
            "area": float(sum(g.area for g in merged.Get_list_groupElem(2))) / float(c.get("coord_scale", 1.0)) ** 2 if merged.dim == 2 else None,
            "groups": {et.name: [ilist(r) for r in g.connect] for et, g in merged.dict_groupElem.items()}}
+    # the invariant of return_mapping, on the real objects: merged.coord[mapping[i]] == mesh_i.coord (every input,
+    # lower-dimensional ones included)
+    mcoord = merged.coord
+    res["Nn"] = int(merged.Nn)
+    res["inputs_recovered"] = [bool(np.allclose(mcoord[np.asarray(mp, dtype=int)], mi.coord, rtol=0, atol=2e-12 if c.get("perturb") else 0))
+                               for mp, mi in zip(mapping, meshes)]
+    if c.get("two_step") and len(meshes) >= 3:
+        # merge of merges: Merge([Merge(first k), rest...]) must be the one-step merge up to the numbering
+        k = int(c["two_step"])
+        with contextlib.redirect_stdout(io.StringIO()):
+            first = Mesh.Merge(meshes[:k], constructUniqueElements=bool(c["unique"]), mergePoints=bool(c["mergePoints"]))
+            two = Mesh.Merge([first] + meshes[k:], constructUniqueElements=bool(c["unique"]), mergePoints=bool(c["mergePoints"]))
+
+        def geo(mesh):
+            cc = mesh.coord
+            return {et.name: sorted(sorted(tuple(float(v) for v in cc[n]) for n in row) for row in g.connect) for et, g in mesh.dict_groupElem.items()}
+        pts1 = sorted(tuple(float(v) for v in row) for row in mcoord)
+        pts2 = sorted(tuple(float(v) for v in row) for row in two.coord)
+        res["two_step"] = {"Nn_one_step": int(merged.Nn), "Nn_two_step": int(two.Nn), "points_equal": pts1 == pts2,
+                           "elements_equal": geo(merged) == geo(two)}
     return res
 
 
